@@ -314,6 +314,13 @@ func (s *Server) LiveWatches() []*SrvWatch {
 	return append([]*SrvWatch(nil), s.watchers...)
 }
 
+// Mu runs f with the server's lock held (to read the call logs consistently).
+func (s *Server) Mu(f func()) {
+	s.mu.Lock()
+	defer s.mu.Unlock()
+	f()
+}
+
 func (s *Server) Counts() (lists, watches int) {
 	s.mu.Lock()
 	defer s.mu.Unlock()
